@@ -212,3 +212,11 @@ mut('C10_failing_pre_exec_ignored', EB,
 mut('C10_stderr_into_stdout_file', EB,
     "        ret += ') 1> \"%s\" \\\\\\n  2> \"%s\"\\n' % (task['stdout_file_short'],\n                                              task['stderr_file_short'])",
     "        ret += ') 1> \"%s\" \\\\\\n  2> \"%s\"\\n' % (task['stdout_file_short'],\n                                              task['stdout_file_short'])")
+
+TD = 'task_description.py'
+mut('C19_use_mpi_default', TD,
+    "            self.use_mpi = bool(self.ranks - 1)",
+    "            self.use_mpi = bool(self.ranks > 0)")
+mut('C19_slot_ctor_renumbers', RC,
+    "                    from_dict['gpus'] =  [RO(index=i, occupation=BUSY)\r\n                                                for i in gpus]",
+    "                    from_dict['gpus'] =  [RO(index=i, occupation=BUSY)\r\n                                                for i in range(len(gpus))]")
